@@ -211,6 +211,7 @@ Proof.
   15: { (* an observed call: the world changes as for a call *)
     destruct (live_inst w i) as [it|] eqn:Hl; [|cbn; lia]. apply live_inst_nth in Hl as [Hn _].
     destruct (matcher_panics (w_cfg w) (w_state w) m a) as [sp|]; [cbn [fst]; unfold originals, set_state; cbn [w_insts]; lia|].
+    destruct (debug_panics (w_cfg w) (w_state w) m a) as [sd|]; [cbn [fst]; unfold originals, set_state; cbn [w_insts]; lia|].
     destruct (call _ _ _ _ _ _ _ _) as [s' act]. cbn [fst]. unfold after_call, originals.
     destruct act; cbn; try lia; rewrite (Hupd _ i it); try lia; try assumption; reflexivity. }
   14: { (* a value that calls the mock from its Drop is lent *)
